@@ -62,6 +62,62 @@ pub fn ref_parse(ops: &[usize], lo: usize) -> Result<Tree, Reject> {
     Ok(tree)
 }
 
+/// A grouping an implementation *might* wrongly give to a forbidden sequence:
+/// comparisons associate to the left or right, `&&`/`||` share a level or one
+/// binds tighter. Only used to choose operand typings under which such a wrong
+/// grouping would be well typed (so that a wrongly accepting compiler is
+/// caught by the typechecker not complaining either).
+fn fallback_parse(ops: &[usize], lo: usize, cmp_right: bool, logic: u8) -> Tree {
+    if ops.is_empty() {
+        return Tree::Leaf(lo);
+    }
+    let lvl = |o: usize| -> u8 {
+        match (o, logic) {
+            (11, 1) | (12, 2) => 1,
+            (11 | 12, _) => 0,
+            _ => level(o) + 1,
+        }
+    };
+    let min = ops.iter().map(|o| lvl(*o)).min().unwrap();
+    let at: Vec<usize> = (0..ops.len()).filter(|i| lvl(ops[*i]) == min).collect();
+    if cmp_right && min == 2 {
+        let p = at[0];
+        return Tree::Bin(
+            ops[p],
+            Box::new(fallback_parse(&ops[..p], lo, cmp_right, logic)),
+            Box::new(fallback_parse(&ops[p + 1..], lo + p + 1, cmp_right, logic)),
+        );
+    }
+    let p = *at.last().unwrap();
+    Tree::Bin(
+        ops[p],
+        Box::new(fallback_parse(&ops[..p], lo, cmp_right, logic)),
+        Box::new(fallback_parse(&ops[p + 1..], lo + p + 1, cmp_right, logic)),
+    )
+}
+
+/// operand typings tried on a forbidden sequence: all of them for k <= 3;
+/// for longer sequences all-int, all-bool and every typing that is well typed
+/// under one of the six fallback groupings
+fn forbidden_typings(ops: &[usize]) -> Vec<u32> {
+    let n = ops.len() + 1;
+    if ops.len() <= 3 {
+        return (0..(1u32 << n)).collect();
+    }
+    let mut v = vec![0, (1u32 << n) - 1];
+    for cmp_right in [false, true] {
+        for logic in 0..3 {
+            let t = fallback_parse(ops, 0, cmp_right, logic);
+            for lb in 0..(1u32 << n) {
+                if type_of(&t, lb).is_some() && !v.contains(&lb) {
+                    v.push(lb);
+                }
+            }
+        }
+    }
+    v
+}
+
 /// is the operator sequence forbidden as a whole (anywhere in it)?
 pub fn ref_reject(ops: &[usize]) -> Option<Reject> {
     ref_parse(ops, 0).err()
@@ -220,9 +276,15 @@ impl OpsFam {
     }
 }
 
-/// integer operand domain: {-3..3}; with six integer operands {-2..2}
+/// integer operand domain: {-3..3}; {-2..2} with five and {-2,-1,1,3} with
+/// six integer operands (those only occur for k >= 4; the shorter sequences
+/// cover every operator pair and triple on the full domain)
 fn int_domain(n_int: usize) -> &'static [i64] {
-    if n_int >= 6 { &[-2, -1, 0, 1, 2] } else { &[-3, -2, -1, 0, 1, 2, 3] }
+    match n_int {
+        0..=4 => &[-3, -2, -1, 0, 1, 2, 3],
+        5 => &[-2, -1, 0, 1, 2],
+        _ => &[-2, -1, 1, 3],
+    }
 }
 
 const VEC_COMPILE: u64 = 0xFFFF_FFFF;
@@ -319,7 +381,7 @@ pub fn run(fam: OpsFam, start: u64, len: u64, cx: &mut Cx) {
                     continue;
                 }
                 let mut accepted = vec![];
-                for leaf_bool in 0..(1u32 << n_leaves) {
+                for leaf_bool in forbidden_typings(&ops) {
                     let src = func("f", n_leaves, leaf_bool, T::Bool, &flat(&ops, leaf_bool, unary));
                     n_trans += 1;
                     if let Verdict::Accept = classify(&rt, &src) {
@@ -346,7 +408,7 @@ pub fn run(fam: OpsFam, start: u64, len: u64, cx: &mut Cx) {
                     let Some(ret) = type_of(&tree, leaf_bool) else { continue };
                     any = true;
                     let j = progs.len();
-                    let (u_name, p_name) = (format!("u{j}"), format!("p{j}"));
+                    let (u_name, p_name) = (format!("flat{j}"), format!("paren{j}"));
                     progs.push(Prog {
                         local,
                         u_src: func(&u_name, n_leaves, leaf_bool, ret, &flat(&ops, leaf_bool, unary)),
@@ -394,6 +456,11 @@ pub fn run(fam: OpsFam, start: u64, len: u64, cx: &mut Cx) {
             case_json(fam, &p.ops, p.unary, e)
         };
         let csub = sub_of(p.local, typing, VEC_COMPILE);
+        if let Some(o) = cx.only() {
+            if o != SUB_SETUP && o >> 32 != csub >> 32 {
+                continue;
+            }
+        }
         if dead.contains(&(csub >> 32)) {
             // a vector of this program killed a worker before: already reported
             continue;
@@ -437,8 +504,29 @@ pub fn run(fam: OpsFam, start: u64, len: u64, cx: &mut Cx) {
         let mut first: Option<V> = None;
         let mut varied = false;
         let mut calls = 0u64;
+        let n_int = (0..n_leaves).filter(|i| p.leaf_bool >> i & 1 == 0).count();
+        let dom = int_domain(n_int);
+        let mut digits = [0usize; 6];
+        let mut vals = [0i64; 6];
+        for (i, v) in vals.iter_mut().enumerate().take(n_leaves) {
+            *v = if p.leaf_bool >> i & 1 == 1 { 0 } else { dom[0] };
+        }
         for vi in 0..nv {
-            let vals = vector(p.leaf_bool, n_leaves, vi);
+            if vi > 0 {
+                // next vector, last operand fastest (same order as `vector`)
+                for i in (0..n_leaves).rev() {
+                    let is_bool = p.leaf_bool >> i & 1 == 1;
+                    let radix = if is_bool { 2 } else { dom.len() };
+                    digits[i] += 1;
+                    if digits[i] < radix {
+                        vals[i] = if is_bool { digits[i] as i64 } else { dom[digits[i]] };
+                        break;
+                    }
+                    digits[i] = 0;
+                    vals[i] = if is_bool { 0 } else { dom[0] };
+                }
+            }
+            debug_assert_eq!(vals, vector(p.leaf_bool, n_leaves, vi));
             let Some(r) = eval(&p.tree, &vals, p.leaf_bool, p.unary) else {
                 n_unspec += 1;
                 continue;
